@@ -468,6 +468,9 @@ class DirStateWorkingTree(InventoryWorkingTree):
         link_or_sha1 = state._rs.update_entry(
             entry[0], file_abspath.encode("utf-8"), stat_value
         )
+        # update_entry may just have changed the recorded kind (e.g. a
+        # directory replaced by a file on disk): look at the fresh entry.
+        entry = self._get_entry(path=path)
         if entry[1][0][0] == b"f":
             if link_or_sha1 is None:
                 file_obj, statvalue = self.get_file_with_stat(path)
